@@ -1,1 +1,685 @@
-def drain_rule(run, f, rid): pass
+"""Rule instances on the coroutine module (C08, C09, C13-DRAIN, C23, C24, C25)."""
+from analysis.facts import norm
+from analysis.cfg import Cfg
+from analysis.flow import (DefUse, backward, find_calls, callee_is, callee_ends, op_local, op_const, switch_info,
+                           bool_branch, variant_arms, static_of, field_chain)
+from analysis.table import describe_val, PathWalker
+from rules.common import need
+
+CO = "coroutine::korosensei::Coroutine"
+SUS = "coroutine::suspender::korosensei::Suspender"
+TLS_TS = "coroutine::suspender::TIMESTAMP"
+TLS_CANCEL = "coroutine::suspender::CANCEL"
+
+
+def tls_of_with(b, du, t):
+    """Which thread-local a `LocalKey::with/try_with` call operates on."""
+    d = describe_val(b, du, t["args"][0])
+    r = repr(d)
+    for k in (TLS_TS, TLS_CANCEL):
+        if "'%s'" % k in r:
+            return k
+    return None
+
+
+# ------------------------------------------------------------------ C09 / C13
+def drain_rule(run, f, rid):
+    run.rule(rid, "raw_resume consumes the per-yield delay and cancel requests on every yield, whatever state the coroutine yielded in", floor=2, template="T1 (path walk)")
+    b = need(run, rid, f, CO + "::raw_resume")
+    if b is None:
+        return
+    cfg = Cfg(b)
+    w = PathWalker(b)
+    res = find_calls(b, callee_is("corosensei::Coroutine::resume"))
+    if not res:
+        run.missing(rid, "corosensei::Coroutine::resume in raw_resume")
+        return
+    paths = w.walk(cfg.after(res[0][0])[0], lambda bid, t: ("return",) if t["k"] == "return" else None)
+    run.count("paths_or_states", len(paths))
+    bad = {}
+    seen_states = set()
+    for (path, conds, sv) in paths:
+        is_yield, cur = False, None
+        cancel_val = None
+        for cd in conds:
+            if cd[0] == "variant" and set(cd[2]) == {"Yield"}:
+                is_yield = True
+            elif cd[0] == "variant" and "@" not in cd[1] and set(cd[2]) <= {"Ready", "Running", "Suspend", "Syscall", "Cancelled", "Complete", "Error"}:
+                cur = cd[2]
+            elif cd[0] == "bool" and cd[1][0] == "call" and cd[1][1].endswith("::is_cancel"):
+                cancel_val = cd[2]
+        if not is_yield or cur is None:
+            continue
+        calls = [norm(b.blocks[x]["term"].get("callee") or "") for x in path if b.blocks[x]["term"]["k"] == "call"]
+        drained_cancel = any(c == SUS + "::is_cancel" for c in calls)
+        drained_ts = any(c == SUS + "::timestamp" for c in calls)
+        for st in cur:
+            if st not in ("Running", "Syscall"):
+                continue   # other states are refused with Err: the yield itself is a protocol error
+            seen_states.add(st)
+            if not drained_cancel:
+                bad.setdefault(st, set()).add("cancel request")
+            if not drained_ts and cancel_val is not True:
+                bad.setdefault(st, set()).add("delay request")
+    for st in ("Running", "Syscall"):
+        key = "%s::raw_resume/Yield-%s" % (CO, st)
+        if st not in seen_states:
+            run.fail(rid, key, b.loc(), "no path classifies a yield made in %s state" % st)
+        elif st in bad:
+            run.fail(rid, key, b.loc(), "a yield made in %s state can return without consuming its %s: the request stays on the thread-local queue and is applied to the next coroutine that yields on this thread" % (st, " and ".join(sorted(bad[st]))))
+        else:
+            run.ok(rid, key, "is_cancel() and (unless cancelled) timestamp() on every path")
+
+
+def push_yield_rule(run, f, rid):
+    run.rule(rid, "a delay/cancel request is pushed only by a function that then yields; producers and consumers use the same end of the same thread-local; only four functions touch them", floor=6, template="T1/T5/T9")
+    touch = {}   # tls -> {fn: set(ops)}
+    for b in f.bodies:
+        if b.kind == "Promoted":
+            continue
+        du = None
+        for (x, t) in b.calls():
+            c = norm(t.get("callee") or "")
+            if c in ("std::thread::LocalKey::with", "std::thread::LocalKey::try_with"):
+                du = du or DefUse(b)
+                k = tls_of_with(b, du, t)
+                if k:
+                    ops = set()
+                    # closure passed as arg1 (and its nested closures)
+                    cl = describe_val(b, du, t["args"][1])
+                    names = [d[1] for d in [cl] if d and d[0] == "closure"]
+                    stack = [cb for cb in f.bodies if cb.kind == "Closure" and cb.npath in names]
+                    seen = set()
+                    while stack:
+                        cb = stack.pop()
+                        if cb.path in seen:
+                            continue
+                        seen.add(cb.path)
+                        for (_y, tt) in cb.calls():
+                            cc = norm(tt.get("callee") or "")
+                            if cc.startswith("std::collections::VecDeque::"):
+                                ops.add(cc.rsplit("::", 1)[1])
+                        stack.extend(f.closures_of(cb))
+                    touch.setdefault(k, {}).setdefault(b.npath, set()).update(ops)
+    want = {
+        TLS_TS: {SUS + "::until_with": {"push_front"}, SUS + "::timestamp": {"pop_front"}},
+        TLS_CANCEL: {SUS + "::cancel": {"push_front"}, SUS + "::is_cancel": {"pop_front"}},
+    }
+    for k in (TLS_TS, TLS_CANCEL):
+        got = touch.get(k, {})
+        if got == want[k]:
+            run.ok(rid, k + "/owners", {fn.rsplit("::", 1)[1]: sorted(v) for fn, v in got.items()})
+        else:
+            extra = {fn: sorted(v) for fn, v in got.items() if want[k].get(fn) != v}
+            run.fail(rid, k + "/owners", "core/src/coroutine/suspender.rs", "the per-yield request queue %s must be touched only by its producer (push_front, then yield) and its consumer (pop_front); found %s" % (k.rsplit("::", 1)[1], extra or "missing " + str(sorted(set(want[k]) - set(got)))))
+    for fn in (SUS + "::until_with", SUS + "::cancel"):
+        b = need(run, rid, f, fn)
+        if b is None:
+            continue
+        cfg = Cfg(b)
+        wc = find_calls(b, callee_is("std::thread::LocalKey::with"))
+        sw = [x for (x, t) in find_calls(b, callee_is(SUS + "::suspend_with"))]
+        ok = len(wc) == 1 and sw and cfg.must_pass(cfg.after(wc[0][0]), sw)[0] and not cfg.in_cycle(wc[0][0])
+        if ok:
+            run.ok(rid, fn + "/push-then-yield", "push is followed by suspend_with on every path")
+        else:
+            run.fail(rid, fn + "/push-then-yield", b.loc(), "%s pushes a request and can return without yielding: the request would be attributed to a later yield" % fn.rsplit("::", 1)[1])
+    # any other function that pushes must also yield (covered by owners); values pushed
+    b = need(run, rid, f, SUS + "::until_with::{closure#0}")
+    if b is not None:
+        du = DefUse(b)
+        pf = find_calls(b, callee_is("std::collections::VecDeque::push_front"))
+        ok = len(pf) == 1 and any(int(x) in b.upvars and b.upvars[int(x)] == "timestamp" for x in backward(b, pf[0][1]["args"][1], du, through_calls="none").fields if x.isdigit())
+        if ok:
+            run.ok(rid, "until_with/value", "pushes its own timestamp argument")
+        else:
+            run.fail(rid, "until_with/value", b.loc(), "until_with must push exactly the timestamp it was given")
+    b = need(run, rid, f, SUS + "::delay_with")
+    if b is not None:
+        du = DefUse(b)
+        uw = find_calls(b, callee_is(SUS + "::until_with"))
+        ok = len(uw) == 1 and any(norm(t.get("callee") or "") == "common::get_timeout_time" for (_x, t) in backward(b, uw[0][1]["args"][2], du, at=(uw[0][0], "term"), through_calls="none").calls)
+        sl = backward(b, uw[0][1]["args"][2], du, at=(uw[0][0], "term")) if uw else None
+        ok = ok and any(b.name_of(p) == "delay" for p in sl.params) and not sl.binops()
+        if ok:
+            run.ok(rid, "delay_with/deadline", "until_with(arg, get_timeout_time(delay))")
+        else:
+            run.fail(rid, "delay_with/deadline", b.loc(), "delay_with must forward to until_with with get_timeout_time(delay)")
+    for fn, dflt in ((SUS + "::timestamp", "0"), (SUS + "::is_cancel", "0")):
+        b = need(run, rid, f, fn)
+        if b is None:
+            continue
+        du = DefUse(b)
+        uo = find_calls(b, callee_is("std::option::Option::unwrap_or", "std::option::Option::unwrap_or_default"))
+        ok = len(uo) == 1 and (len(uo[0][1]["args"]) == 1 or uo[0][1]["args"][1].get("v") == dflt)
+        if ok:
+            run.ok(rid, fn + "/default", "empty queue -> %s" % ("0" if "timestamp" in fn else "false"))
+        else:
+            run.fail(rid, fn + "/default", b.loc(), "with no pending request %s must report %s" % (fn.rsplit("::", 1)[1], "time 0" if "timestamp" in fn else "not cancelled"))
+
+
+# ------------------------------------------------------------------ C08
+def pass_rule(run, f, rid):
+    run.rule(rid, "values cross the coroutine boundary unmodified: resume arg, yielded value, return value, suspend_with arg/result, body called with its own suspender and parameter", floor=6, template="T5")
+    b = need(run, rid, f, CO + "::raw_resume")
+    if b is not None:
+        cfg = Cfg(b)
+        du = DefUse(b)
+        res = find_calls(b, callee_is("corosensei::Coroutine::resume"))
+        if len(res) == 1:
+            rb, rt = res[0]
+            sl = backward(b, rt["args"][1], du, at=(rb, "term"), through_calls="none")
+            if {b.name_of(p) for p in sl.params} == {"arg"} and not sl.ops and not sl.calls:
+                run.ok(rid, "raw_resume/arg", "inner.resume(arg)")
+            else:
+                run.fail(rid, "raw_resume/arg", b.loc(rt["line"]), "the resume argument is not passed to the coroutine unmodified")
+            recv = field_chain(b, du, rt["args"][0])
+            if recv[-1:] != ["inner"]:
+                run.fail(rid, "raw_resume/inner", b.loc(rt["line"]), "resume is not applied to this coroutine's own inner context", counts_as_instance=False)
+            # suspend(y, ts): y is the Yield payload; complete(r): r is the Ok payload; error(m): the Err payload
+            for callee, want, nm in ((CO + "::suspend", "@Yield.0", "suspend"), (CO + "::complete", "@Return.0", "complete"), (CO + "::error", "@Return.0", "error")):
+                cs = find_calls(b, callee_is(callee))
+                ok = len(cs) == 1
+                if ok:
+                    d = describe_val(b, du, cs[0][1]["args"][1])
+                    ok = want in repr(d) and "binop" not in repr(d)
+                    if nm == "suspend":
+                        d2 = describe_val(b, du, cs[0][1]["args"][2])
+                        ok = ok and d2[0] == "call" and d2[1] == SUS + "::timestamp"
+                if ok:
+                    run.ok(rid, "raw_resume/" + nm, "payload passed through")
+                else:
+                    run.fail(rid, "raw_resume/" + nm, b.loc(), "%s() is not given the value the coroutine produced (%s)" % (nm, want))
+        else:
+            run.fail(rid, "raw_resume/arg", b.loc(), "expected exactly one inner.resume call")
+    b = need(run, rid, f, SUS + "::suspend_with")
+    if b is not None:
+        du = DefUse(b)
+        ys = find_calls(b, callee_is("corosensei::Yielder::suspend"))
+        ok = len(ys) == 1
+        if ok:
+            sl = backward(b, ys[0][1]["args"][1], du, at=(ys[0][0], "term"), through_calls="none")
+            r = backward(b, 0, du, through_calls="none")
+            ok = {b.name_of(p) for p in sl.params} == {"arg"} and not sl.ops and any(x == ys[0][0] for (x, _t) in r.calls) and not r.ops
+        if ok:
+            run.ok(rid, "suspend_with/pass", "returns inner.suspend(arg)")
+        else:
+            run.fail(rid, "suspend_with/pass", b.loc(), "suspend_with must yield exactly `arg` and return exactly what the resumer passed")
+    # Coroutine::new body closure: f(&suspender, p) -> r
+    inner = [c for c in f.bodies if c.kind == "Closure" and c.npath.startswith(CO + "::new::{closure#") and c.npath.count("{closure#") == 2]
+    found = False
+    for cb in inner:
+        du = DefUse(cb)
+        for (x, t) in cb.calls():
+            if norm(t.get("orig") or "").endswith("FnOnce::call_once") and not t.get("exp"):
+                found = True
+                tup = describe_val(cb, du, t["args"][1])
+                okp = tup[0] == "tuple" and len(tup[1]) == 2 and "suspender" in repr(tup[1][0])
+                r = backward(cb, 0, du, through_calls="none")
+                okr = any(y == x for (y, _t) in r.calls) and not r.ops
+                if okp and okr:
+                    run.ok(rid, "Coroutine::new/body", "r = f(&suspender, p); returns r")
+                else:
+                    run.fail(rid, "Coroutine::new/body", cb.loc(), "the coroutine body closure must call f(&suspender, p) and return its result unchanged")
+    if not found:
+        run.fail(rid, "Coroutine::new/body", "core/src/coroutine/korosensei.rs", "call of the user function inside Coroutine::new not found")
+
+
+def catch_rule(run, f, rid):
+    run.rule(rid, "user code (coroutine body, task function) runs only inside catch_unwind; the payload's message is reported for &str and String payloads", floor=2, template="T2")
+    body_cl = [c.npath for c in f.bodies if c.kind == "Closure" and c.npath.startswith(CO + "::new::{closure#") and c.npath.count("{closure#") == 1
+               and any(norm(t.get("callee") or "") == "std::panic::catch_unwind" for (_x, t) in c.calls())]
+    sites = [(body_cl[0] if body_cl else CO + "::new::{closure#?}", "coroutine body"), ("co_pool::task::Task::run", "task function")]
+    for fn, what in sites:
+        b = need(run, rid, f, fn)
+        if b is None:
+            continue
+        du = DefUse(b)
+        cu = find_calls(b, callee_is("std::panic::catch_unwind"))
+        # the user callable is invoked in a closure nested below this function
+        user_calls = []
+        for cb in [c for c in f.bodies if c.kind == "Closure" and c.npath.startswith(fn + "::{closure#")] :
+            for (x, t) in cb.calls():
+                if norm(t.get("orig") or "").endswith(("FnOnce::call_once", "Fn::call", "FnMut::call_mut")) and not t.get("exp"):
+                    user_calls.append((cb, t))
+        direct = [t for (x, t) in b.calls() if norm(t.get("orig") or "").endswith(("FnOnce::call_once",)) and not t.get("exp")]
+        why = []
+        if len(cu) != 1:
+            why.append("expected exactly one catch_unwind (found %d)" % len(cu))
+        if direct:
+            why.append("the user callable is invoked outside the catch_unwind closure")
+        if not user_calls:
+            why.append("no call of the user callable found")
+        else:
+            # the closure that makes the call is (wrapped in AssertUnwindSafe) the argument of catch_unwind
+            arg = repr(describe_val(b, du, cu[0][1]["args"][0])) if cu else ""
+            for (cb, t) in user_calls:
+                if cb.npath not in arg:
+                    why.append("the closure calling the user code (%s) is not the argument of catch_unwind" % cb.npath.rsplit("::", 1)[1])
+        # map_err closure downcasts: &str and String
+        dc = set()
+        for cb in [c for c in f.bodies if c.kind == "Closure" and c.npath.startswith(fn + "::{closure#")]:
+            for (x, t) in cb.calls():
+                if norm(t.get("callee") or "").endswith("::downcast_ref"):
+                    dc.add(t["substs"][-1] if t.get("substs") else "?")
+        if not any("str" in d for d in dc) or not any("String" in d for d in dc):
+            why.append("panic payloads are not downcast to both &'static str and String (found %s)" % sorted(dc))
+        if why:
+            run.fail(rid, fn + "/catch", b.loc(), "%s: %s" % (what, "; ".join(why)))
+        else:
+            run.ok(rid, fn + "/catch", {"payload_types": sorted(dc)})
+    # the message is used unmodified (no slicing / truncation)
+    for fn in (sites[0][0], "co_pool::task::Task::run"):
+        for cb in [c for c in f.bodies if c.kind == "Closure" and c.npath.startswith(fn + "::{closure#")]:
+            calls = [norm(t.get("callee") or "") for (_x, t) in cb.calls()]
+            if any(c.endswith("::downcast_ref") for c in calls):
+                bad = [c for c in calls if c.endswith(("Index>::index", "::get", "::truncate", "::split_at", "::chars", "::get_unchecked")) or "SliceIndex" in c or "ops::Range" in c]
+                if bad:
+                    run.fail(rid, cb.npath + "/message-unmodified", cb.loc(), "the panic message is sliced/truncated before it is reported (%s): long messages are cut and a cut inside a UTF-8 character panics outside catch_unwind" % bad[0], counts_as_instance=False)
+
+
+def listener_rule(run, f, rid):
+    run.rule(rid, "every listener callback is individually wrapped in catch_unwind (a panicking listener neither unwinds into the runtime nor starves later listeners)", floor=8, template="T2")
+    names = ["on_state_changed", "on_ready", "on_running", "on_suspend", "on_syscall", "on_cancel", "on_complete", "on_error"]
+    for n in names:
+        b = need(run, rid, f, "<%s as coroutine::listener::Listener>::%s" % (CO, n))
+        if b is None:
+            continue
+        cfg = Cfg(b)
+        cu = find_calls(b, callee_is("std::panic::catch_unwind"))
+        nx = [x for (x, t) in b.calls() if norm(t.get("orig") or "").endswith("Iterator::next")]
+        direct = [t for (_x, t) in b.calls() if (t.get("trait") or "").endswith("listener::Listener")]
+        inner = []
+        for cb in f.closures_of(b):
+            for (_x, t) in cb.calls():
+                if (t.get("trait") or "").endswith("listener::Listener"):
+                    inner.append(cb)
+            for c2 in f.closures_of(cb):
+                for (_x, t) in c2.calls():
+                    if (t.get("trait") or "").endswith("listener::Listener"):
+                        inner.append(c2)
+        why = []
+        if direct:
+            why.append("a listener is called outside catch_unwind")
+        if len(cu) != 1 or not inner:
+            why.append("expected one catch_unwind around the listener call")
+        else:
+            # catch_unwind sits inside the per-listener loop: it is on a cycle with the iterator's next()
+            if not nx or not cfg.in_cycle(cu[0][0]) or not any(cu[0][0] in cfg.reachable(cfg.after(x)) and x in cfg.reachable(cfg.after(cu[0][0])) for x in nx):
+                why.append("catch_unwind wraps the whole loop instead of each listener: after one listener panics the remaining listeners miss the event")
+            for cb in inner:
+                if any(norm(t.get("orig") or "").endswith("Iterator::next") for (_x, t) in cb.calls()):
+                    why.append("the loop over listeners runs inside the caught closure")
+        if why:
+            run.fail(rid, "broadcast/" + n, b.loc(), "; ".join(sorted(set(why))))
+        else:
+            run.ok(rid, "broadcast/" + n, "for listener in listeners { catch_unwind(|| listener.%s(..)) }" % n)
+
+
+def once_rule(run, f, rid):
+    run.rule(rid, "the Return arm of raw_resume reports completion or error exactly once", floor=1, template="T1")
+    b = need(run, rid, f, CO + "::raw_resume")
+    if b is None:
+        return
+    cfg = Cfg(b)
+    cs = find_calls(b, callee_is(CO + "::complete", CO + "::error"))
+    ok = len(cs) == 2 and not any(cfg.in_cycle(x) for (x, _t) in cs) and not any(y in cfg.reachable(cfg.after(x)) for (x, _t) in cs for (y, _t2) in cs)
+    if ok:
+        run.ok(rid, "raw_resume/once", "complete xor error, outside loops")
+    else:
+        run.fail(rid, "raw_resume/once", b.loc(), "a returning coroutine must be reported by exactly one of complete()/error(), once")
+
+
+# ------------------------------------------------------------------ C23
+def grow_rule(run, f, rid_pair, rid_check, rid_value):
+    run.rule(rid_pair, "the stack-segment record pushed before on_stack is popped on normal return and on unwind (RAII guard), on both the coroutine and the thread path", floor=2, template="T1 incl. unwind exits")
+    run.rule(rid_check, "the callback runs in place only when remaining >= red_zone measured against the last segment; otherwise a fresh segment is allocated and recorded", floor=2, template="T2/T5")
+    run.rule(rid_value, "maybe_grow_with returns the callback's own value", floor=2, template="T5")
+    outer = need(run, rid_pair, f, CO + "::maybe_grow_with")
+    if outer is None:
+        return
+    closures = [c for c in f.bodies if c.kind == "Closure" and c.npath.startswith(CO + "::maybe_grow_with::{closure#")]
+    grow = [c for c in closures if any(norm(t.get("callee") or "") == "corosensei::on_stack" for (_x, t) in c.calls())]
+    if len(grow) != 2:
+        run.fail(rid_pair, "maybe_grow_with/on_stack-sites", outer.loc(), "expected two growth paths (coroutine, thread) calling corosensei::on_stack, found %d" % len(grow))
+    for cb in grow:
+        cfgu = Cfg(cb, unwind=True)
+        cfg = Cfg(cb)
+        du = DefUse(cb)
+        os_ = find_calls(cb, callee_is("corosensei::on_stack"))[0]
+        path = "thread-path" if any(norm(t.get("callee") or "") == "std::thread::LocalKey::with" for (_x, t) in cb.calls()) else "coroutine-path"
+        # push before
+        pushes = [x for (x, t) in cb.calls() if norm(t.get("callee") or "") == "std::collections::VecDeque::push_back"]
+        for c2 in f.closures_of(cb):
+            if any(norm(t.get("callee") or "") == "std::collections::VecDeque::push_back" for (_x, t) in c2.calls()):
+                pushes += [x for (x, t) in cb.calls() if norm(t.get("callee") or "") == "std::thread::LocalKey::with" and c2.npath in repr(describe_val(cb, du, t["args"][1]))]
+        pre = [x for x in pushes if cfg.dominates(x, os_[0])]
+        # a drop of a local whose type has a Drop impl that pops, on the unwind edge of on_stack and on the normal path
+        guards = []
+        for blk in cb.blocks:
+            t = blk["term"]
+            if t["k"] == "drop":
+                ty = norm(t["pty"])
+                adt = f.nadts.get(ty) or f.nadts.get(ty.split("<")[0])
+                if adt and adt.get("drop"):
+                    db = f.body(norm(adt["drop"]))
+                    pops = False
+                    if db is not None:
+                        stack = [db] + f.closures_of(db)
+                        for d in stack:
+                            for (_x, tt) in d.calls():
+                                if norm(tt.get("callee") or "") == "std::collections::VecDeque::pop_back":
+                                    pops = True
+                            stack_extra = f.closures_of(d)
+                            for d2 in stack_extra:
+                                for (_x, tt) in d2.calls():
+                                    if norm(tt.get("callee") or "") == "std::collections::VecDeque::pop_back":
+                                        pops = True
+                    if pops:
+                        guards.append(blk["id"])
+        for (x, t) in cb.calls():
+            if norm(t.get("callee") or "") == "std::mem::drop" and t["args"] and op_local(t["args"][0]) is not None:
+                ty = norm(cb.locals[op_local(t["args"][0])])
+                adt = f.nadts.get(ty)
+                if adt and adt.get("drop"):
+                    db = f.body(norm(adt["drop"]))
+                    if db is not None and any(norm(tt.get("callee") or "") == "std::collections::VecDeque::pop_back" for d in [db] + f.closures_of(db) + [c3 for c2 in f.closures_of(db) for c3 in f.closures_of(c2)] for (_y, tt) in d.calls()):
+                        guards.append(x)
+        unwind_bb = os_[1].get("unwind")
+        # drop flags: value of each boolean flag local at the on_stack call (reaching constant definitions)
+        from analysis.flow import ReachingDefs
+        rd = ReachingDefs(cb, du)
+        known = {}
+        for l in range(len(cb.locals)):
+            if cb.locals[l] == "bool" and l in du.defs:
+                vals = set()
+                for d in rd.reaching(l, os_[0], "term"):
+                    if d is not None and d[2] == "assign" and d[3]["rhs"]["k"] == "use" and op_const(d[3]["rhs"]["a"]) is not None:
+                        vals.add(op_const(d[3]["rhs"]["a"]))
+                    else:
+                        vals.add(None)
+                if len(vals) == 1 and None not in vals:
+                    known[l] = vals.pop()
+
+        def unwind_reach(start):
+            seen, work = set(), [start]
+            while work:
+                x = work.pop()
+                if x in seen or x in guards:
+                    continue
+                seen.add(x)
+                t = cb.blocks[x]["term"]
+                if t["k"] == "switch" and op_local(t["discr"]) in known and not t["discr"]["p"]["proj"]:
+                    v = known[op_local(t["discr"])]
+                    tg = [bb for val, bb in t["targets"] if int(val) == v]
+                    work.append(tg[0] if tg else t["otherwise"])
+                else:
+                    work.extend(cfgu.succ[x])
+            return seen
+        ok_unwind = isinstance(unwind_bb, int) and bool(guards) and not (set(cfgu.resumes) & unwind_reach(unwind_bb))
+        ok_normal = bool(guards) and cfg.must_pass(cfg.after(os_[0]), guards)[0]
+        # alternative without guard type: explicit pop_back on both edges
+        key = "%s::maybe_grow_with/%s" % (CO, path)
+        if pre and ok_unwind and ok_normal:
+            run.ok(rid_pair, key, "push_back -> guard -> on_stack -> guard dropped on return and on unwind")
+        else:
+            run.fail(rid_pair, key, cb.loc(os_[1]["line"]), "the %s pushes a StackInfo before on_stack but does not pop it on %s: after a caught panic later growth decisions are taken against a freed segment" % (path.replace("-", " "), "unwind" if ok_normal else "every exit"))
+        # value: result of the closure is the on_stack result
+        r = backward(cb, 0, du, through_calls="none")
+        if any(x == os_[0] for (x, _t) in r.calls) and not r.ops:
+            run.ok(rid_value, key + "/value", "returns on_stack(stack, callback)")
+        else:
+            run.fail(rid_value, key + "/value", cb.loc(), "the grown path does not return the callback's value unchanged")
+        # recorded segment is the freshly allocated stack
+        okrec = any("StackInfo" in norm(t.get("callee") or "") and "From" in norm(t.get("callee") or "") for (_x, t) in cb.calls()) or any("StackInfo" in norm(t.get("callee") or "") for c2 in f.closures_of(cb) for (_x, t) in c2.calls())
+        if okrec:
+            run.ok(rid_check, key + "/record-new-segment", "StackInfo::from(&stack) of the new segment")
+        else:
+            run.fail(rid_check, key + "/record-new-segment", cb.loc(), "the segment recorded is not derived from the freshly allocated stack")
+    # in-place decision in the outer function
+    cfg = Cfg(outer)
+    du = DefUse(outer)
+    n = 0
+    for blk in outer.blocks:
+        t = blk["term"]
+        if t["k"] != "switch":
+            continue
+        dl = op_local(t["discr"])
+        ds = du.defs.get(dl, []) if dl is not None else []
+        if len(ds) == 1 and ds[0][2] == "assign" and ds[0][3]["rhs"]["k"] == "binop" and ds[0][3]["rhs"]["op"] in ("Ge", "Le", "Gt", "Lt"):
+            rv = ds[0][3]["rhs"]
+            a, c = describe_val(outer, du, rv["a"]), describe_val(outer, du, rv["b"])
+            ra, rc = repr(a), repr(c)
+            rem_a = "remaining_stack" in ra or "stack_bottom" in ra
+            rem_c = "remaining_stack" in rc or "stack_bottom" in rc
+            red_a, red_c = "red_zone" in ra, "red_zone" in rc
+            if (rem_a and red_c) or (rem_c and red_a):
+                n += 1
+                enough_true = (rv["op"] == "Ge" and rem_a) or (rv["op"] == "Le" and rem_c)
+                br = bool_branch(outer, cfg, du, dl, [blk["id"]])
+                inplace = [x for (x, tt) in outer.calls() if norm(tt.get("orig") or "").endswith("FnOnce::call_once") and not tt.get("exp")]
+                ok = br is not None and enough_true and any(cfg.dominates(br[0], x) for x in inplace)
+                key = "%s::maybe_grow_with/in-place-test#%d" % (CO, n)
+                if ok:
+                    run.ok(rid_check, key, "callback() in place only under remaining >= red_zone")
+                else:
+                    run.fail(rid_check, key, outer.loc(t["line"]), "the in-place fast path is not guarded by remaining >= red_zone")
+                # value of in-place path
+    if n < 2:
+        run.fail(rid_check, "%s::maybe_grow_with/in-place-tests" % CO, outer.loc(), "expected two remaining>=red_zone tests (coroutine path, thread path), found %d" % n, counts_as_instance=False)
+    b = need(run, rid_check, f, CO + "::remaining_stack")
+    if b is not None:
+        du = DefUse(b)
+        sl = backward(b, 0, du)
+        cs = {norm(t.get("callee") or "") for (_x, t) in sl.calls}
+        if any(c.endswith("::back") for c in cs) and "psm::stack_pointer" in cs and "stack_bottom" in sl.fields and set(sl.binops()) <= {"Sub", "SubWithOverflow"}:
+            run.ok(rid_check, CO + "::remaining_stack", "sp - stack_infos.back().stack_bottom")
+        else:
+            run.fail(rid_check, CO + "::remaining_stack", b.loc(), "remaining stack must be measured from the current stack pointer to the bottom of the LAST segment")
+
+
+# ------------------------------------------------------------------ C24
+def trap_rule(run, f, rid_msg, rid_install):
+    run.rule(rid_msg, "the fault message is 'invalid memory reference' iff the faulting stack pointer is inside a stack segment of the coroutine, else 'stack overflow'", floor=3, template="T6/T5")
+    run.rule(rid_install, "the trap handler is installed before the coroutine runs, for SIGSEGV and SIGBUS, on the alternate stack, and only redirects when a coroutine is current", floor=3, template="T3/T2")
+    b = need(run, rid_msg, f, CO + "::trap_handler")
+    if b is not None:
+        cfg = Cfg(b)
+        du = DefUse(b)
+        ib = find_calls(b, callee_is(CO + "::stack_ptr_in_bounds"))
+        cur = find_calls(b, callee_is(CO + "::current"))
+        st = find_calls(b, callee_ends("::setup_trap_handler"))
+        why = []
+        if len(ib) != 1:
+            why.append("stack_ptr_in_bounds is not consulted exactly once")
+        else:
+            sp = repr(describe_val(b, du, ib[0][1]["args"][1]))
+            if "gregs" not in sp or "'15'" not in sp:
+                why.append("the tested address is not read from the context's stack-pointer register (%s)" % sp[:120])
+            # closure captures the boolean; messages
+            cl = [c for c in f.closures_of(b)]
+            msgs = {}
+            for c in cl:
+                d2 = DefUse(c)
+                for blk in c.blocks:
+                    if blk["term"]["k"] == "switch":
+                        tt = blk["term"]
+                        for v, bb in tt["targets"] + [["other", tt["otherwise"]]]:
+                            for s in c.blocks[bb]["stmts"]:
+                                if s["k"] == "assign" and s["rhs"]["k"] == "use" and s["rhs"]["a"]["k"] == "const" and "dbg" in s["rhs"]["a"]:
+                                    msgs[str(v)] = s["rhs"]["a"]["dbg"]
+                sw = [blk for blk in c.blocks if blk["term"]["k"] == "switch"]
+            t_msg = msgs.get("other", msgs.get("1"))
+            f_msg = msgs.get("0")
+            if not (t_msg and "invalid memory reference" in t_msg and f_msg and "stack overflow" in f_msg):
+                why.append("in-bounds must map to \"invalid memory reference\" and out-of-bounds to \"stack overflow\" (found true->%s false->%s)" % (t_msg, f_msg))
+            # the captured flag is the result of stack_ptr_in_bounds
+            for blk in b.blocks:
+                for i, s in enumerate(blk["stmts"]):
+                    if s["k"] == "assign" and s["rhs"]["k"] == "agg" and "closure" in s["rhs"]:
+                        for o in s["rhs"]["ops"]:
+                            sl = backward(b, o, du, at=(blk["id"], i), through_calls="none")
+                            if not any(x == ib[0][0] for (x, _t) in sl.calls):
+                                why.append("the message closure does not capture the result of stack_ptr_in_bounds")
+        if not cur or not st or not all(any(cfg.dominates(variant_arms(b, cfg, du, c[1]["dest"]["l"], cfg.after(c[0]))[0].get("Some", -1), s[0]) for c in cur if variant_arms(b, cfg, du, c[1]["dest"]["l"], cfg.after(c[0]))) for s in st):
+            why.append("the context is rewritten although no coroutine is current")
+        if why:
+            run.fail(rid_msg, CO + "::trap_handler/message", b.loc(), "; ".join(why))
+        else:
+            run.ok(rid_msg, CO + "::trap_handler/message", "in_bounds(sp) -> invalid memory reference, else stack overflow; redirect only with a current coroutine")
+        # same register is written back
+        wr = set()
+        for blk in b.blocks:
+            for s in blk["stmts"]:
+                if s["k"] == "assign" and s["lhs"]["proj"] and "gregs" in repr(s["lhs"]):
+                    wr.add(1)
+        if wr:
+            run.ok(rid_msg, CO + "::trap_handler/writes-context", "context registers rewritten from TrapHandlerRegs")
+        else:
+            run.fail(rid_msg, CO + "::trap_handler/writes-context", b.loc(), "the handler no longer rewrites the interrupted context")
+    b = need(run, rid_msg, f, CO + "::stack_ptr_in_bounds")
+    if b is not None:
+        du = DefUse(b)
+        cfg = Cfg(b)
+        cmps = []
+        for blk in b.blocks:
+            for s in blk["stmts"]:
+                if s["k"] == "assign" and s["rhs"]["k"] == "binop" and s["rhs"]["op"] in ("Le", "Lt", "Ge", "Gt"):
+                    a, c = repr(describe_val(b, du, s["rhs"]["a"])), repr(describe_val(b, du, s["rhs"]["b"]))
+                    cmps.append((s["rhs"]["op"], "stack_bottom" if "stack_bottom" in a else "stack_top" if "stack_top" in a else "ptr" if "stack_ptr" in a else a[:30],
+                                 "stack_bottom" if "stack_bottom" in c else "stack_top" if "stack_top" in c else "ptr" if "stack_ptr" in c else c[:30]))
+        want = {("Le", "stack_bottom", "ptr"), ("Lt", "ptr", "stack_top")}
+        alt = {("Ge", "ptr", "stack_bottom"), ("Gt", "stack_top", "ptr")}
+        norm_c = set()
+        for (op, a, c) in cmps:
+            if (op, a, c) in alt:
+                m = {("Ge", "ptr", "stack_bottom"): ("Le", "stack_bottom", "ptr"), ("Gt", "stack_top", "ptr"): ("Lt", "ptr", "stack_top")}[(op, a, c)]
+                norm_c.add(m)
+            else:
+                norm_c.add((op, a, c))
+        loops = any(norm(t.get("orig") or "").endswith("Iterator::next") for (_x, t) in b.calls())
+        over = any("stack_infos" in norm(t.get("callee") or "") for (_x, t) in b.calls())
+        if norm_c == want and loops and over:
+            run.ok(rid_msg, CO + "::stack_ptr_in_bounds", "exists segment: stack_bottom <= sp < stack_top")
+        else:
+            run.fail(rid_msg, CO + "::stack_ptr_in_bounds", b.loc(), "in-bounds must mean `stack_bottom <= sp && sp < stack_top` for some segment of the coroutine (comparisons found: %s)" % sorted(cmps))
+    b = need(run, rid_install, f, CO + "::raw_resume")
+    if b is not None:
+        cfg = Cfg(b)
+        st = find_calls(b, callee_is(CO + "::setup_trap_handler"))
+        res = find_calls(b, callee_is("corosensei::Coroutine::resume"))
+        if st and res and cfg.dominates(st[0][0], res[0][0]):
+            run.ok(rid_install, "raw_resume/install-first", "setup_trap_handler() dominates inner.resume")
+        else:
+            run.fail(rid_install, "raw_resume/install-first", b.loc(), "the trap handler is not installed before the coroutine is resumed")
+    b = need(run, rid_install, f, CO + "::setup_trap_handler")
+    if b is not None:
+        du = DefUse(b)
+        sa = find_calls(b, callee_is("nix::sys::signal::sigaction"))
+        sigs = set()
+        for (x, t) in sa:
+            d = repr(describe_val(b, du, t["args"][0]))
+            for s in ("SIGSEGV", "SIGBUS"):
+                if s in d:
+                    sigs.add(s)
+        new = find_calls(b, callee_is("nix::sys::signal::SigAction::new"))
+        flags = repr(describe_val(b, du, new[0][1]["args"][1])) if new else ""
+        handler = repr(describe_val(b, du, new[0][1]["args"][0])) if new else ""
+        ok = sigs == {"SIGSEGV", "SIGBUS"} and "SA_ONSTACK" in flags and "trap_handler" in handler
+        if ok:
+            run.ok(rid_install, CO + "::setup_trap_handler", "sigaction(SIGSEGV|SIGBUS, trap_handler, SA_ONSTACK)")
+        else:
+            run.fail(rid_install, CO + "::setup_trap_handler", b.loc(), "the handler must be installed for SIGSEGV and SIGBUS with SA_ONSTACK and point to trap_handler (signals %s, flags %s)" % (sorted(sigs), flags[:80]))
+        cx = find_calls(b, callee_ends("::compare_exchange"))
+        if cx:
+            run.ok(rid_install, CO + "::setup_trap_handler/once", "guarded by an atomic compare_exchange")
+        else:
+            run.fail(rid_install, CO + "::setup_trap_handler/once", b.loc(), "installation is not guarded by an atomic once-flag")
+
+
+# ------------------------------------------------------------------ C25
+def local_rule(run, f, rid_private, rid_map, rid_release):
+    L = "coroutine::local::CoroutineLocal"
+    run.rule(rid_private, "the storage map is reachable only through put/get/get_mut/remove of the coroutine's own CoroutineLocal", floor=2, template="T9/T5")
+    run.rule(rid_map, "put returns the displaced value, get reads the latest, remove returns and deletes", floor=3, template="T5")
+    run.rule(rid_release, "every value leaked into the map is re-boxed on overwrite, on remove and when the map is destroyed", floor=3, template="T1 on ownership")
+    adt = f.nadts.get(L)
+    if not adt:
+        run.missing(rid_private, L)
+        return
+    # who touches field 0 of CoroutineLocal
+    touch = set()
+    for b in f.bodies:
+        if b.kind == "Promoted":
+            continue
+        txt = None
+        for blk in b.blocks:
+            for s in blk["stmts"]:
+                if s["k"] == "assign":
+                    for pl in [s["lhs"]] + [x for x in ([s["rhs"].get("p")] if s["rhs"].get("p") else [])] + [o["p"] for o in (s["rhs"].get("ops") or []) + ([s["rhs"]["a"]] if s["rhs"].get("a") else []) + ([s["rhs"]["b"]] if s["rhs"].get("b") else []) if o.get("k") in ("copy", "move")]:
+                        for e in pl["proj"]:
+                            if isinstance(e, dict) and "f" in e and norm(e.get("of") or "") == L:
+                                touch.add(b.npath)
+    allowed = {L + "::put", L + "::get", L + "::get_mut", L + "::remove", "<%s as std::fmt::Debug>::fmt" % L, "<%s as std::default::Default>::default" % L, "<%s as std::clone::Clone>::clone" % L, "<%s as std::ops::Drop>::drop" % L}
+    extra = {t for t in touch if t not in allowed and not t.startswith(L + "::")}
+    if not extra:
+        run.ok(rid_private, L + "/accessors", sorted(touch))
+    else:
+        run.fail(rid_private, L + "/accessors", "core/src/coroutine/local.rs", "the storage map is accessed outside CoroutineLocal's own methods: %s" % sorted(extra))
+    b = need(run, rid_private, f, "<%s as std::ops::Deref>::deref" % CO)
+    if b is not None:
+        du = DefUse(b)
+        sl = backward(b, 0, du)
+        if sl.fields == {"local"} and not sl.calls:
+            run.ok(rid_private, CO + "/deref", "&self.local")
+        else:
+            run.fail(rid_private, CO + "/deref", b.loc(), "Coroutine::deref must return the coroutine's own local storage")
+    cn = need(run, rid_private, f, CO + "::new")
+    if cn is not None:
+        du = DefUse(cn)
+        fresh = False
+        for blk in cn.blocks:
+            for s in blk["stmts"]:
+                if s["k"] == "assign" and s["rhs"]["k"] == "agg" and norm(s["rhs"].get("adt") or "") == CO:
+                    idx = s["rhs"]["fields"].index("local")
+                    d = describe_val(cn, du, s["rhs"]["ops"][idx])
+                    fresh = d[0] == "call" and "Default" in d[1] and "CoroutineLocal" in d[1]
+        if fresh:
+            run.ok(rid_private, CO + "::new/fresh-local", "local: CoroutineLocal::default()")
+        else:
+            run.fail(rid_private, CO + "::new/fresh-local", cn.loc(), "a new coroutine must start with a fresh, private CoroutineLocal")
+    # map-like
+    for fn, leak, reb in ((L + "::put", True, True), (L + "::remove", False, True), (L + "::get", False, False)):
+        b = need(run, rid_map, f, fn)
+        if b is None:
+            continue
+        calls = [norm(t.get("callee") or "") for c in [b] + f.closures_of(b) for (_x, t) in c.calls()]
+        has_leak = any(c.endswith("Box::leak") or c.endswith("Box::into_raw") for c in calls)
+        has_from_raw = any(c.endswith("Box::from_raw") for c in calls)
+        mapop = {"put": "::insert", "remove": "::remove", "get": "::get"}[fn.rsplit("::", 1)[1]]
+        has_op = any(c.startswith(("std::collections::HashMap", "dashmap::DashMap")) and c.endswith(mapop) for c in calls)
+        ok = has_op and (has_leak or not leak) and (has_from_raw or not reb)
+        if ok:
+            run.ok(rid_map, fn, {"map_op": mapop, "leaks": has_leak, "reboxes": has_from_raw})
+        else:
+            run.fail(rid_map, fn, b.loc(), "%s must %s%s%s" % (fn.rsplit("::", 1)[1], "use the map's %s" % mapop, ", leak the new value" if leak else "", ", re-box (and return) the displaced value" if reb else ""))
+    # release on destruction
+    for fn in (L + "::put", L + "::remove"):
+        b = f.body(fn)
+        if b is None:
+            continue
+        calls = [norm(t.get("callee") or "") for c in [b] + f.closures_of(b) for (_x, t) in c.calls()]
+        if any(c.endswith("Box::from_raw") for c in calls):
+            run.ok(rid_release, fn + "/rebox", "displaced pointer is re-boxed")
+        else:
+            run.fail(rid_release, fn + "/rebox", b.loc(), "a pointer displaced from the map is not turned back into a Box (leak)")
+    if adt.get("drop"):
+        db = f.body(norm(adt["drop"]))
+        calls = [norm(t.get("callee") or "") for c in ([db] + f.closures_of(db) if db else []) for (_x, t) in c.calls()]
+        if any(c.endswith("Box::from_raw") or c.endswith("drop_in_place") for c in calls):
+            run.ok(rid_release, L + "/drop", "Drop releases the stored values")
+        else:
+            run.fail(rid_release, L + "/drop-does-not-release", "core/src/coroutine/local.rs", "CoroutineLocal has a Drop impl that does not release the stored values")
+    else:
+        run.fail(rid_release, L + "/no-drop-impl", "core/src/coroutine/local.rs",
+                 "values are stored as leaked, type-erased pointers (Box::leak -> usize) and CoroutineLocal has no Drop impl: values still stored when the coroutine is dropped are never dropped, although docs/en/coroutine.md promises they are")
